@@ -24,6 +24,7 @@ CONSTANTS D,            \* directory ids
           FIX_READD,    \* F15: a removed directory is re-added at once when it exists again
           FIX_STALE,    \* F13: a goroutine whose watcher is no longer current does nothing
           FIX_RENAMEDIR, \* F14: a Rename event for a tracked directory is treated like its removal
+          FIX_SCANWATCHED, \* F18: a rescan leaves out directories that could not be watched because they did not exist
           RECORD        \* TRUE: keep the history of actions (for behaviour emission); FALSE: hist stays empty
 
 SpecName == "f.json"
@@ -54,6 +55,10 @@ fsvars == <<exists, gen, files, away>>
 
 EmptyFiles == [n \in Names |-> 0]
 Fresh(cd) == [d \in D |-> IF d \in cd /\ exists[d] THEN files[d][SpecName] ELSE 0]
+\* what a rescan indexes, given the tracked map t it finds: with the F18 repair a configured directory that was
+\* missing when the watches were last updated is left out even if it exists by now - it is not watched, so nothing
+\* would tell the cache when it changes or disappears again; the next update() that can watch it brings it in
+Scan(cd, t) == [d \in D |-> IF d \in cd /\ exists[d] /\ (~FIX_SCANWATCHED \/ t[d] = "t") THEN files[d][SpecName] ELSE 0]
 Ev(o, d, n) == [op |-> o, d |-> d, n |-> n]
 Act(a, d, n, c, w, nd, na) == [a |-> a, d |-> d, n |-> n, c |-> c, w |-> w, nd |-> nd, na |-> na]
 Rec(x) == hist' = IF RECORD THEN Append(hist, x) ELSE hist
@@ -200,32 +205,46 @@ ApplyUpdate(e, removed) ==
 WatcherPtr == LET S == { x \in 1..cur : wstate[x] # "none" } IN
               IF S = {} THEN 0 ELSE CHOOSE x \in S : \A y \in S : y <= x
 
-\* under the mutex: update the watch, rescan
+\* The cache mutex.  The watcher goroutine's critical section is TWO steps - update the watches, then
+\* rescan - and the file system does not wait for it: directory operations may fall between the two
+\* (and the kernel queues their events on whatever watches exist at that moment).  Queries, Configure
+\* and the other goroutines do wait.
+Locked == \E w \in Wids : gor[w].pc = "scan"
+
+\* first half, taking the mutex: update the watch (or find out that the watcher has been replaced)
 GorHandle(w) ==
-  /\ gor[w].pc = "have"
+  /\ gor[w].pc = "have" /\ ~Locked
   /\ IF FIX_STALE /\ w # WatcherPtr
      THEN \* its watcher has been replaced: nothing to do, the goroutine ends
           /\ gor' = [gor EXCEPT ![w] = [pc |-> "dead", ev |-> NoEv]]
-          /\ UNCHANGED <<tracked, watches, errs, idx>>
+          /\ UNCHANGED <<tracked, watches, errs>>
      ELSE /\ LET e == gor[w].ev
                  dirgone == /\ e.n = "." /\ tracked[e.d] = "t"
                             /\ (e.op = "remove" \/ (FIX_RENAMEDIR /\ e.op = "rename"))
              IN ApplyUpdate(w, IF dirgone THEN {e.d} ELSE {})
-          /\ idx' = Fresh(cdirs)
-          /\ gor' = [gor EXCEPT ![w] = [pc |-> IF wstate[w] = "closed" THEN "dead" ELSE "recv", ev |-> NoEv]]
-  /\ UNCHANGED <<exists, gen, files, away, cur, auto, cdirs, wstate, kq, ub, infl, short, fsops, confs, obs>>
+          /\ gor' = [gor EXCEPT ![w] = [pc |-> "scan", ev |-> NoEv]]
+  /\ UNCHANGED <<exists, gen, files, away, cur, auto, cdirs, wstate, kq, ub, infl, idx, short, fsops, confs, obs>>
   /\ Rec(Act("handle", gor[w].ev.d, gor[w].ev.n, 0, w, {}, FALSE))
+
+\* second half: rescan, release the mutex
+GorScan(w) ==
+  /\ gor[w].pc = "scan"
+  /\ idx' = Scan(cdirs, tracked)
+  /\ gor' = [gor EXCEPT ![w] = [pc |-> IF wstate[w] = "closed" THEN "dead" ELSE "recv", ev |-> NoEv]]
+  /\ UNCHANGED <<exists, gen, files, away, cur, auto, cdirs, wstate, tracked, watches, kq, ub, infl, errs, short, fsops, confs, obs>>
+  /\ Rec(Act("scan", "", "", 0, w, {}, FALSE))
 
 -----------------------------------------------------------------------------
 (* API *)
 
 \* any query: refreshIfRequired(false), then read the index
 Query ==
+  /\ ~Locked
   /\ IF auto /\ wstate[cur] = "nil"
      THEN /\ idx' = Fresh(cdirs) /\ UNCHANGED <<tracked, watches, errs>>     \* no watcher: every query rescans
      ELSE IF auto
      THEN /\ ApplyUpdate(cur, {})
-          /\ idx' = IF UpdateResult(cur, {}).changed THEN Fresh(cdirs) ELSE idx
+          /\ idx' = IF UpdateResult(cur, {}).changed THEN Scan(cdirs, tracked') ELSE idx
      ELSE UNCHANGED <<tracked, watches, errs, idx>>
   /\ obs' = idx'
   /\ UNCHANGED <<exists, gen, files, away, cur, auto, cdirs, wstate, kq, ub, infl, gor, short, fsops, confs>>
@@ -233,7 +252,7 @@ Query ==
 
 \* Configure(WithSpecDirs(nd), WithAutoRefresh(na)): stop, set up, start, refresh
 Configure(nd, na) ==
-  /\ confs < MaxConfs /\ confs' = confs + 1 /\ cur < MaxWids
+  /\ confs < MaxConfs /\ confs' = confs + 1 /\ cur < MaxWids /\ ~Locked
   /\ LET new == cur + 1
          ok  == na /\ ~short                                  \* fsnotify.NewWatcher succeeds
          add == IF ok THEN { d \in nd : exists[d] } ELSE {}    \* first update(): every existing directory is added
@@ -276,12 +295,12 @@ Init ==
   /\ hist = IF RECORD THEN <<[a |-> "init", d |-> "", n |-> "", c |-> 0, w |-> 1, nd |-> cdirs, na |-> TRUE, ex |-> { d \in D : exists[d] }]>> ELSE <<>>
 
 Next == \/ FsOp
-        \/ \E w \in Wids : ReaderRead(w) \/ ReaderFetch(w) \/ GorRecv(w) \/ GorExit(w) \/ GorHandle(w)
+        \/ \E w \in Wids : ReaderRead(w) \/ ReaderFetch(w) \/ GorRecv(w) \/ GorExit(w) \/ GorHandle(w) \/ GorScan(w)
         \/ Query
         \/ \E nd \in DirOptions, na \in BOOLEAN : Configure(nd, na)
         \/ Shortage
 
-Fair == /\ \A w \in Wids : WF_vars(ReaderRead(w)) /\ WF_vars(ReaderFetch(w)) /\ WF_vars(GorRecv(w)) /\ WF_vars(GorExit(w)) /\ WF_vars(GorHandle(w))
+Fair == /\ \A w \in Wids : WF_vars(ReaderRead(w)) /\ WF_vars(ReaderFetch(w)) /\ WF_vars(GorRecv(w)) /\ WF_vars(GorExit(w)) /\ WF_vars(GorHandle(w)) /\ WF_vars(GorScan(w))
         /\ WF_vars(Query)
 Spec == Init /\ [][Next]_vars /\ Fair
 
@@ -296,10 +315,10 @@ Converges == <>[](auto => obs = Fresh(cdirs))
 ErrConverges == <>[]((auto /\ ~short /\ wstate[cur] = "open") => \A d \in cdirs : (errs[cur][d] = "none") <=> exists[d])
 
 \* C20: watchers and goroutines do not accumulate
-Live == { w \in Wids : gor[w].pc \in {"recv", "have"} }
+Live == { w \in Wids : gor[w].pc \in {"recv", "have", "scan"} }
 OpenW == { w \in Wids : wstate[w] = "open" }
 Bounded == /\ Cardinality(OpenW) <= 1
-           /\ Cardinality(Live) <= 1 + Cardinality({ w \in Wids : w # cur /\ gor[w].pc \in {"recv", "have"} /\ wstate[w] = "closed" })
+           /\ Cardinality(Live) <= 1 + Cardinality({ w \in Wids : w # cur /\ gor[w].pc \in {"recv", "have", "scan"} /\ wstate[w] = "closed" })
 \* every stale goroutine is on its way out; eventually exactly the current one (or none) is left
 Settles == <>[](Live \subseteq {cur} /\ (auto /\ wstate[cur] = "open" => cur \in Live))
 \* right after Configure the index is that of a fresh cache; tracked covers exactly the final directories
@@ -311,7 +330,7 @@ WatchesOK == \A w \in Wids, d \in D : (watches[w][d] # 0 /\ wstate[w] = "open") 
 TypeOK == cur \in Wids /\ fsops \in 0..MaxFsOps /\ confs \in 0..MaxConfs
 
 \* behaviours for the replay harness: printed from quiescent states with the budgets used up
-Quiescent == \A w \in Wids : kq[w] = <<>> /\ ub[w] = <<>> /\ infl[w] = NoEv /\ gor[w].pc # "have"
+Quiescent == \A w \in Wids : kq[w] = <<>> /\ ub[w] = <<>> /\ infl[w] = NoEv /\ gor[w].pc \notin {"have", "scan"}
 EmitRow == (RECORD /\ fsops = MaxFsOps /\ confs = MaxConfs /\ Quiescent /\ Len(hist) > 1 /\ hist[Len(hist)].a = "query")
              => PrintT(ToJson([hist |-> hist, cdirs |-> cdirs, auto |-> auto, fresh |-> Fresh(cdirs),
                                missing |-> { d \in cdirs : ~exists[d] }, obs |-> obs]))
